@@ -76,6 +76,10 @@ func runC17(c *fw.Case) (o fw.Outcome) {
 			}
 			o.Input = "PlmnIDToNas " + mcc + "/" + mnc
 			got := nasConvert.PlmnIDToNas(models.PlmnId{Mcc: mcc, Mnc: mnc})
+			if m := retainCheck("plmn", got, o.Input); m != "" {
+				o.Fail("retained-result-changed:plmn", "%s", m)
+				return
+			}
 			if want := refPLMN(mcc, mnc); !bytes.Equal(got, want) {
 				o.Fail("plmn", "PlmnIDToNas(%s,%s) = %x, TS 24.501 9.11.3.4 gives %x", mcc, mnc, got, want)
 				return
@@ -88,6 +92,10 @@ func runC17(c *fw.Case) (o fw.Outcome) {
 			for _, sd := range []string{"", "000000", "ffffff", "FFFFFF", hexs(rbytes(r, 3)), strings.ToUpper(hexs(rbytes(r, 3)))} {
 				o.Input = fmt.Sprintf("SnssaiToNas sst=%d sd=%q", sst, sd)
 				got := nasConvert.SnssaiToNas(models.Snssai{Sst: int32(sst), Sd: sd})
+				if m := retainCheck("snssai", got, o.Input); m != "" {
+					o.Fail("retained-result-changed:snssai", "%s", m)
+					return
+				}
 				want := []byte{1, byte(sst)}
 				if sd != "" {
 					want = []byte{4, byte(sst)}
@@ -155,6 +163,10 @@ func runC17(c *fw.Case) (o fw.Outcome) {
 			}
 			o.Input = fmt.Sprintf("IPAddressToNgap(%q,%q)", v4, v6)
 			tla := ngapConvert.IPAddressToNgap(v4, v6)
+			if m := retainCheck("tla", tla.Value.Bytes, o.Input); m != "" {
+				o.Fail("retained-result-changed:ip", "%s", m)
+				return
+			}
 			var want []byte
 			if v4 != "" {
 				want = append(want, net.ParseIP(v4).To4()...)
@@ -192,6 +204,10 @@ func runC17(c *fw.Case) (o fw.Outcome) {
 			}
 			o.Input = fmt.Sprintf("PCO with %d units", n)
 			got := p.Marshal()
+			if m := retainCheck("pco", got, o.Input); m != "" {
+				o.Fail("retained-result-changed:pco", "%s", m)
+				return
+			}
 			if !bytes.Equal(got, want) {
 				o.Fail("pco-marshal", "PCO Marshal of %d units differs from TS 24.008 10.5.6.3 at octet %d", n, firstDiff(got, want))
 				return
@@ -226,6 +242,10 @@ func runC17(c *fw.Case) (o fw.Outcome) {
 			d := util_3gpp.Dnn(name)
 			o.Input = fmt.Sprintf("Dnn %q", name)
 			b, err := d.MarshalBinary()
+			if m := retainCheck("dnn", b, o.Input); m != "" {
+				o.Fail("retained-result-changed:dnn", "%s", m)
+				return
+			}
 			if err != nil || len(b) != l+1 || int(b[0]) != l || !bytes.Equal(b[1:], name) {
 				o.Fail("dnn-marshal", "Dnn(%q).MarshalBinary = %x (err %v): expected one length octet and the label", name, b, err)
 				return
